@@ -44,6 +44,9 @@ pub fn end_call() -> Option<String> {
         return None;
     }
     let (r, s) = (READS.with(|c| c.get()), SLEEPS.with(|c| c.get()));
+    if t & 4 != 0 {
+        return Some("one call wrote to standard error, which here is a full pipe that nobody drains: the write, and with it the call, would never return".to_string());
+    }
     Some(format!(
         "one call made more than {} {} (clock reads {}, sleeps {}) and only came back because the harness broke the loop",
         LIMIT,
@@ -227,6 +230,80 @@ thread_local! {
     static FAIL_READ_PATH: std::cell::RefCell<Option<std::path::PathBuf>> = const { std::cell::RefCell::new(None) };
 }
 pub static READ_FAILURES_INJECTED: AtomicU64 = AtomicU64::new(0);
+pub static SHORT_READS_INJECTED: AtomicU64 = AtomicU64::new(0);
+pub static WRITE_FAILURES_INJECTED: AtomicU64 = AtomicU64::new(0);
+pub static BLOCKING_STDERR_WRITES: AtomicU64 = AtomicU64::new(0);
+static STDERR_BLOCKS: std::sync::atomic::AtomicBool = std::sync::atomic::AtomicBool::new(false);
+
+thread_local! {
+    static SHORT_READ: Cell<usize> = const { Cell::new(0) };
+    static FAIL_WRITE: Cell<(i32, u32, u32)> = const { Cell::new((0, 0, 0)) };
+    static FAIL_WRITE_PATH: std::cell::RefCell<Option<std::path::PathBuf>> = const { std::cell::RefCell::new(None) };
+}
+
+/// read() calls of the calling thread on a descriptor open on `path` return at most `max` bytes
+/// each (0 = whatever the kernel gives): a pipe, a FUSE file or a chunking driver does that.
+pub fn short_reads_of(path: &str, max: usize) {
+    SHORT_READ.with(|c| c.set(max));
+    if max > 0 {
+        FAIL_READ_PATH.with(|p| *p.borrow_mut() = Some(std::fs::canonicalize(path).unwrap_or_else(|_| std::path::PathBuf::from(path))));
+    }
+}
+
+/// write() calls of the calling thread on a descriptor open on `path` fail with `errno`, from the
+/// (`after` + 1)-th on, `times` times (a file system that has just filled up).
+pub fn fail_writes_of(path: &str, errno: i32, after: u32, times: u32) {
+    FAIL_WRITE.with(|c| c.set((errno, after, times)));
+    FAIL_WRITE_PATH.with(|p| *p.borrow_mut() = if times > 0 { Some(std::path::PathBuf::from(path)) } else { None });
+}
+
+/// From now on standard error is taken to be a pipe that is full and that nobody drains: a write
+/// to it from inside a metered call would never return; the interposer notes it and fails the
+/// write with EAGAIN instead (harness threads outside metered calls are not affected).
+pub fn stderr_blocks(on: bool) {
+    STDERR_BLOCKS.store(on, Ordering::SeqCst);
+}
+
+fn fd_target_is(fd: libc::c_int, path: &std::path::Path) -> bool {
+    let mut link = [0u8; 512];
+    let name = format!("/proc/self/fd/{}\0", fd);
+    let k = unsafe { libc::syscall(libc::SYS_readlink, name.as_ptr(), link.as_mut_ptr(), link.len()) };
+    if k <= 0 {
+        return false;
+    }
+    let got = &link[..k as usize];
+    let want = path.as_os_str().as_encoded_bytes();
+    // (a deleted or renamed-over file shows with a " (deleted)" suffix)
+    got == want || std::fs::canonicalize(path).map(|c| c.as_os_str().as_encoded_bytes() == got).unwrap_or(false)
+}
+
+/// # Safety
+/// Same contract as write(2).
+#[cfg(not(miri))]
+#[no_mangle]
+pub unsafe extern "C" fn write(fd: libc::c_int, buf: *const libc::c_void, n: libc::size_t) -> libc::ssize_t {
+    if fd == 2 && STDERR_BLOCKS.load(Ordering::Relaxed) && METERED.try_with(|c| c.get()).unwrap_or(false) {
+        BLOCKING_STDERR_WRITES.fetch_add(1, Ordering::Relaxed);
+        TRIPPED.with(|c| c.set(c.get() | 4));
+        set_errno(libc::EAGAIN);
+        return -1;
+    }
+    let (e, after, times) = FAIL_WRITE.try_with(|c| c.get()).unwrap_or((0, 0, 0));
+    if times > 0 && fd > 2 {
+        let hit = FAIL_WRITE_PATH.with(|p| p.borrow().as_ref().map(|p| fd_target_is(fd, p)).unwrap_or(false));
+        if hit {
+            if after > 0 {
+                FAIL_WRITE.with(|c| c.set((e, after - 1, times)));
+            } else {
+                FAIL_WRITE.with(|c| c.set((e, 0, times - 1)));
+                WRITE_FAILURES_INJECTED.fetch_add(1, Ordering::Relaxed);
+                set_errno(e);
+                return -1;
+            }
+        }
+    }
+    libc::syscall(libc::SYS_write, fd as libc::c_long, buf, n) as libc::ssize_t
+}
 
 /// The next `times` read() calls of the calling thread on a descriptor open on `path` fail with
 /// `errno` (times = 0: stop failing): a device-backed sysfs attribute that is busy, a process
@@ -253,6 +330,14 @@ pub unsafe extern "C" fn read(fd: libc::c_int, buf: *mut libc::c_void, n: libc::
             READ_FAILURES_INJECTED.fetch_add(1, Ordering::Relaxed);
             set_errno(e);
             return -1;
+        }
+    }
+    let short = SHORT_READ.try_with(|c| c.get()).unwrap_or(0);
+    if short > 0 && n > short {
+        let hit = FAIL_READ_PATH.with(|p| p.borrow().as_ref().map(|p| fd_target_is(fd, p)).unwrap_or(false));
+        if hit {
+            SHORT_READS_INJECTED.fetch_add(1, Ordering::Relaxed);
+            return libc::syscall(libc::SYS_read, fd as libc::c_long, buf, short) as libc::ssize_t;
         }
     }
     libc::syscall(libc::SYS_read, fd as libc::c_long, buf, n) as libc::ssize_t
